@@ -227,6 +227,7 @@ def rule_fast(ctx):
         params = set(f.params)
         # ref upper-cased
         refv = d.get('ref')
+        refname = refv.id if isinstance(refv, ast.Name) else 'ref'
         if isinstance(refv, ast.Name):
             refv = _local_value(f, refv.id)
         if refv is None or not (isinstance(refv, ast.Call) and isinstance(
@@ -241,7 +242,7 @@ def rule_fast(ctx):
                 problems.append('`ref` is not built through _build_cel/_build_ref')
         namev = d.get('name')
         if not (isinstance(namev, ast.Call) and call_name(namev) == '_build_id'
-                and [norm_src(a) for a in namev.args] == ['ref', 'sheet_id']):
+                and [norm_src(a) for a in namev.args] == [refname, 'sheet_id']):
             problems.append('`name` is not _build_id(ref, sheet_id)')
         if 'c1' in params:
             n1 = d.get('n1')
